@@ -516,8 +516,8 @@ impl<'a> Gen<'a> {
         let guid = if self.rng.chance(1, 25) { String::new() } else { format!("file-{}", gen_string(self.rng)) };
         for _ in 0..self.rng.below(3) {
             let ns = (*self.rng.pick(&["ext", "nor", "my-ext_2", "e57x", "xmlbad", "", "bad ns", "ext"])).to_string();
-            let url = (*self.rng.pick(&["http://example.com/ext", "http://www.libe57.org/E57_NOR_surface_normals.txt", "urn:x", "http://a/?b=1&c=2", "a\"b", "<u>"])).to_string();
-            if ref_valid_name(&ns) && !self.exts.iter().any(|e| e.0 == ns) {
+            let url = (*self.rng.pick(&["http://example.com/ext", "http://www.libe57.org/E57_NOR_surface_normals.txt", "urn:x", "http://a/?b=1&c=2", "a\"b", "<u>", "", "http://www.astm.org/COMMIT/E57/2010-e57-v1.0"])).to_string();
+            if ref_valid_name(&ns) && !self.exts.iter().any(|e| e.0 == ns) && !self.exts.iter().any(|e| e.1 == url) && !url.is_empty() && url != "http://www.astm.org/COMMIT/E57/2010-e57-v1.0" {
                 self.exts.push((ns.clone(), url.clone()));
             }
             stmts.push(Stmt::Ext(ns, url));
@@ -544,6 +544,15 @@ impl<'a> Gen<'a> {
                     let c = self.cloud(points_hint);
                     stmts.push(c)
                 }
+            }
+        }
+        // the writer stays usable after finalize: an early (or repeated) finalize must not harm
+        // what follows or what was there before
+        if self.rng.chance(1, 8) {
+            let at = self.rng.below(stmts.len() as u64 + 1) as usize;
+            stmts.insert(at, Stmt::Fin);
+            if self.rng.chance(1, 3) {
+                stmts.insert(at, Stmt::Fin);
             }
         }
         stmts.push(Stmt::Fin);
@@ -577,7 +586,8 @@ pub fn oracle_program(sink: &mut Sink, line: &str, prog: &Program, run: &Run) {
         match s {
             Stmt::Ext(ns, url) => {
                 let r = res(k);
-                let expect_ok = ref_valid_name(ns) && !exts.iter().any(|e| &e.0 == ns);
+                // a namespace is identified by its URL: one prefix per URL, and never the E57 namespace itself
+                let expect_ok = ref_valid_name(ns) && !exts.iter().any(|e| &e.0 == ns) && !exts.iter().any(|e| &e.1 == url) && !url.is_empty() && url != "http://www.astm.org/COMMIT/E57/2010-e57-v1.0";
                 if r == "panic" {
                     sink.fail("C10", "writer/panic/register_extension", line, "register_extension panicked");
                 } else if (r == "ok") != expect_ok && r != "<none>" {
@@ -704,8 +714,15 @@ pub fn oracle_program(sink: &mut Sink, line: &str, prog: &Program, run: &Run) {
             }
         }
         Ok(Ok(got)) => {
+            // C10: when every call succeeded, any difference is also a failure of the writer's contract
+            let all_ok = run.results.iter().all(|r| r.starts_with("ok") || r == "-");
+            let mut first = true;
             for (prop, sig, detail) in compare(&exp, &got) {
                 sink.fail(prop, &sig, line, &detail);
+                if all_ok && first && prop != "C10" {
+                    sink.fail("C10", &format!("writer/all-calls-ok-but-{sig}"), line, &format!("every call including finalize succeeded, yet: {detail}"));
+                    first = false;
+                }
             }
             // direct blobs
             if let Ok(mut r) = e57::E57Reader::new(std::io::Cursor::new(run.file.clone())) {
